@@ -102,6 +102,18 @@ example : (rateRows xP {} 7 [("PEG", 5), ("USD", 100), ("EUR", 110)] .floating).
 
 end Pegnet.C12
 
+namespace Pegnet.C12
+open Pegnet
+/-- the shipped schedule, regenerated from config/activations.go and fat/fat2/activations.go on every
+    run, against the values this property was read with: the heights at which the PEG pricing phase, the SPR band and its width change. Every scenario of the harness
+    runs on a compressed schedule that overwrites these constants, so nothing else would notice one of
+    them moving; a moved height is a different protocol, not a rewrite. -/
+theorem shipped_schedule :
+    let a := Generated.activations
+    Generated.activationsComplete = true ∧ a.pegPricing = 214287 ∧ a.pegFloat = 222270 ∧ a.v20 = 258796 ∧ a.devRewards = 260118 ∧ a.v202 = 274036 := by
+  decide
+end Pegnet.C12
+
 #print axioms Pegnet.C12.rates_immutable
 #print axioms Pegnet.C12.block_touches_only_its_height
 #print axioms Pegnet.C12.no_rates_no_conversions
@@ -111,3 +123,4 @@ end Pegnet.C12
 #print axioms Pegnet.C12.band_constants_match_source
 #print axioms Pegnet.C12.rates_recorded_exact
 #print axioms Pegnet.C12.insert_rates_exact
+#print axioms Pegnet.C12.shipped_schedule
